@@ -29,7 +29,8 @@ RULE = ("forecast/observation/weight arrays of 1-14 pairs in 1-3-d shapes, forec
         "int64 / int32 / int16 / uint8 / uint16 / uint32 / uint64 / float32 arrays (numpy and xarray; unsigned values also near the top of the type's range) "
         "plus a deterministic dtype corpus; +inf / -inf as VALID data: forecasts (every functional, numpy / xarray / bootstrap), observations where the "
         "functional defines the result (solvers max / min, quantile blocks that read finite order statistics only, mean with infinities of one sign), "
-        "weights for solvers that ignore them; bootstrap cases replay np.random.seed; a separate malformed stream covers every _iso_arg_checks branch "
+        "weights for solvers that ignore them; bootstrap cases replay np.random.seed; every optional argument omitted vs written out at its documented "
+        "default (functional='mean', bootstraps=None, confidence_level=0.9, min_non_nan=1, report_bootstrap_results=False ...); a separate malformed stream covers every _iso_arg_checks branch "
         "incl. the dtype checks. A case is distinct by the hash of (function, inputs, options), non-trivial when the fit has >= 2 pairs")
 ASSUMPTIONS = ["an infinite observation is inside the domain only where the functional defines the block values: solvers max / min, quantile blocks whose "
                "interpolation reads finite order statistics (np.quantile returns NaN otherwise), the mean with infinities of one sign; bootstrap bands "
@@ -45,7 +46,7 @@ EXPECT_COUNTS = ["known_corpus", "dtype_corpus", "pav_sequences", "functional:me
                  "with_nan", "fit:ok", "dtype:fcst:int", "dtype:fcst:uint", "dtype:fcst:float32", "dtype:obs:uint", "dtype:weight:uint", "inf:fcst",
                  "inf:obs:max-min", "inf:obs:quantile", "inf:obs:mean-one-sided", "inf:weight", "relation:inf-standin", "relation:nan-deleted",
                  "relation:permuted", "oracle_fit_cases", "xarray", "xarray:typed", "xarray:inf-fcst", "bootstrap", "bootstrap:inf-fcst", "nanquantile", "nanquantile:infinite-values",
-                 "malformed:", "malformed:dtype:"]
+                 "malformed:", "malformed:dtype:", "defaults:fit", "defaults:bootstrap"]
 
 NAN = float("nan")
 INF = float("inf")
@@ -794,6 +795,114 @@ def check_boot(ctx, M, i, f, o, w, functional, solver, q, B, conf, mnn, seed):
         ctx.violation("bootstrap bands are not reproducible for a fixed numpy seed", case, lo_i.tolist(), again["confidence_band_lower_values"].tolist())
 
 
+# ------------------------------------------------------------------------------------------
+# the optional arguments both OMITTED and EXPLICIT at their documented defaults (weight=None, functional="mean", bootstraps=None,
+# quantile_level=None, solver=None, confidence_level=0.9, min_non_nan=1, report_bootstrap_results=False): a default changed in the
+# signature is invisible to calls that always write the argument out.  Model-free (relations between public calls + python oracles).
+# ------------------------------------------------------------------------------------------
+DEFAULTS = {"weight": None, "functional": "mean", "bootstraps": None, "quantile_level": None, "solver": None, "confidence_level": 0.9,
+            "min_non_nan": 1, "report_bootstrap_results": False}
+ARRAY_KEYS = ("fcst_sorted", "fcst_counts", "regression_values", "confidence_band_lower_values", "confidence_band_upper_values")
+
+
+def same_result(a, b, grid):
+    """two result dictionaries are the same: keys, arrays (None or bitwise equal, NaN = NaN), levels, the three functions on a grid"""
+    if set(a) != set(b) or tuple(a["confidence_band_levels"]) != tuple(b["confidence_band_levels"]):
+        return False
+    for k in ARRAY_KEYS + (("bootstrap_results",) if "bootstrap_results" in a else ()):
+        if (a[k] is None) != (b[k] is None) or (a[k] is not None and not np.array_equal(a[k], b[k], equal_nan=True)):
+            return False
+    return all(np.array_equal(a[k](grid), b[k](grid), equal_nan=True)
+               for k in ("regression_func", "confidence_band_lower_func", "confidence_band_upper_func"))
+
+
+def defaults_case(ctx, M, rng):
+    f, o, w = gen_pairs(rng, nmax=9)
+    F, O = np.array(f), np.array(o)
+    W = None if w is None else np.array(w)
+    valid = [k for k in range(len(f)) if not (np.isnan(f[k]) or np.isnan(o[k]) or (w is not None and np.isnan(w[k])))]
+    if not valid:
+        return
+    grid = np.array(sorted({x for x in f if not np.isnan(x)} | {-5.25, 0.25, 5.25}))
+    case = {"fn": "isotonic_fit[defaults]", "fcst": f, "obs": o, "weight": w}
+    ctx.case(("defaults", repr(case)), len(valid) >= 2)
+    ctx.count("defaults:fit")
+    wk = {} if W is None else {"weight": W}
+    # 1. the plain fit: nothing but the data (and the weights) written out == every documented default written out == the oracle
+    omitted = core.call_impl(M.isotonic_fit, F, O, **wk)
+    explicit = core.call_impl(M.isotonic_fit, F, O, **dict(DEFAULTS, weight=W))
+    if omitted[0] != "ok" or explicit[0] != "ok":
+        ctx.violation("isotonic_fit raises on valid input (optional arguments omitted / written out at their documented defaults)", case,
+                      "a fit", [omitted[1] if omitted[0] != "ok" else "ok", explicit[1] if explicit[0] != "ok" else "ok"])
+        return
+    if not same_result(omitted[1], explicit[1], grid):
+        ctx.violation("isotonic_fit with the optional arguments omitted differs from the call with the documented defaults written out "
+                      "(functional='mean', bootstraps=None, confidence_level=0.9, min_non_nan=1, report_bootstrap_results=False ...)", case,
+                      summary_str(explicit[1]), summary_str(omitted[1]))
+        return
+    res = omitted[1]
+    keys, vals = o_maxmin(f, o, w)
+    if not (core.close_list(res["fcst_sorted"], keys) and core.close_list(res["regression_values"], vals)):
+        ctx.violation("isotonic_fit with `functional` omitted is not the mean-functional fit (max-min of block averages, python oracle)", case,
+                      [str(v) for v in vals], res["regression_values"].tolist())
+    if (res["confidence_band_lower_values"] is not None or res["confidence_band_upper_values"] is not None or "bootstrap_results" in res
+            or tuple(res["confidence_band_levels"]) != (None, None)):
+        ctx.violation("isotonic_fit with `bootstraps` omitted returns a confidence band / bootstrap results", case, "none", summary_str(res))
+    # 2. bootstrap: confidence_level / min_non_nan / report_bootstrap_results omitted == 0.9 / 1 / False written out (same numpy
+    #    seed); the band is the 0.05 / 0.95 quantile of the non-NaN values of each column of the reported bootstrap results,
+    #    NaN only where a column has no value at all
+    B = rng.randint(2, 6)
+    seed = rng.randint(0, 2 ** 31 - 1)
+    functional, solver, q = rand_functional(rng, w is not None)
+    kw = kwargs(functional, solver, q, W)
+    if functional == "mean" and rng.random() < 0.5:
+        del kw["functional"]
+    case = dict(case, functional=functional, solver=solver, quantile_level=q, bootstraps=B, numpy_seed=seed, keywords_passed=sorted(kw))
+    runs = []
+    for extra in ({}, {"confidence_level": 0.9, "min_non_nan": 1, "report_bootstrap_results": False},
+                  {"confidence_level": 0.9, "min_non_nan": 1, "report_bootstrap_results": True}):
+        np.random.seed(seed)
+        runs.append(core.call_impl(M.isotonic_fit, F, O, bootstraps=B, **kw, **extra))
+    ctx.count("defaults:bootstrap")
+    if any(r[0] != "ok" for r in runs):
+        ctx.violation("isotonic_fit[bootstrap] raises on valid input (confidence_level / min_non_nan / report_bootstrap_results omitted or "
+                      "written out at 0.9 / 1 / False)", case, "a fit", [r[1] if r[0] != "ok" else "ok" for r in runs])
+        return
+    a, b, c = (r[1] for r in runs)
+    if not same_result(a, b, grid):
+        ctx.violation("isotonic_fit[bootstrap] with confidence_level / min_non_nan / report_bootstrap_results omitted differs from the call "
+                      "with 0.9 / 1 / False written out (same numpy seed)", case,
+                      {"levels": b["confidence_band_levels"], "lower": b["confidence_band_lower_values"].tolist(), "upper": b["confidence_band_upper_values"].tolist(), "keys": sorted(b)},
+                      {"levels": a["confidence_band_levels"], "lower": a["confidence_band_lower_values"].tolist(), "upper": a["confidence_band_upper_values"].tolist(), "keys": sorted(a)})
+        return
+    if "bootstrap_results" in a or "bootstrap_results" not in c:
+        ctx.violation("bootstrap_results is reported exactly when report_bootstrap_results=True (default False)", case, "absent / present",
+                      ["bootstrap_results" in a, "bootstrap_results" in c])
+        return
+    lv = a["confidence_band_levels"]
+    if not (abs(lv[0] - 0.05) < 1e-12 and abs(lv[1] - 0.95) < 1e-12):
+        ctx.violation("confidence_band_levels with confidence_level omitted: (0.05, 0.95)", case, (0.05, 0.95), lv)
+    rows = c["bootstrap_results"]
+    if has_inf(f) or rows.shape[1] != len(valid):
+        return
+    # columns of bootstrap_results follow the tidied (sorted) forecasts; the band is reported at the distinct ones
+    fs = sorted(f[k] for k in valid)
+    for j, x in enumerate(a["fcst_sorted"]):
+        col = [float(v) for v in rows[:, fs.index(float(x))]]
+        for name, level in (("confidence_band_lower_values", Fraction(1, 20)), ("confidence_band_upper_values", Fraction(19, 20))):
+            want = o_nanquantile_col(col, level)
+            got = float(a[name][j])
+            if has_inf(col) and want is not None and not core.close(got, want):
+                continue                       # recorded finding nanquantile-infinite-values (its own stream decides it)
+            if (want is None and has_inf(col)):
+                continue
+            if not (np.isnan(got) if want is None else core.close(got, want)):
+                ctx.violation("confidence band with confidence_level / min_non_nan omitted is not the 0.05 / 0.95 quantile of the non-NaN "
+                              "bootstrap values of the column (NaN only for a column without any value: min_non_nan=1)",
+                              dict(case, forecast=float(x), column=col, band=name), "nan" if want is None else str(want), got)
+                return
+
+
 FINDING_NQ = "nanquantile-infinite-values"
 
 
@@ -1085,6 +1194,10 @@ def run_without_model(ctx):
             break
         oracle_pav_case(ctx, M, rng)
     dtype_corpus(ctx, M, rng, model=False)
+    for _ in range(ctx.n(200, 4000)):
+        if not ctx.time_left():
+            break
+        defaults_case(ctx, M, rng)
     for k in range(ctx.n(900, 12000)):
         if not ctx.time_left():
             break
@@ -1211,6 +1324,10 @@ def run(ctx):
         if not ctx.time_left():
             break
         boot_case(ctx, M, rng, i)
+    for _ in range(ctx.n(120, 4000)):
+        if not ctx.time_left():
+            break
+        defaults_case(ctx, M, rng)
     for _ in range(ctx.n(200, 8000)):
         if not ctx.time_left():
             break
